@@ -336,7 +336,7 @@ func loadKnown() []knownFinding {
 	var out []knownFinding
 	for _, l := range strings.Split(string(f), "\n") {
 		l = strings.TrimSpace(l)
-		if l == "" || strings.HasPrefix(l, "#") {
+		if l == "" || strings.HasPrefix(l, "#") || strings.HasPrefix(l, "fixed:") {
 			continue
 		}
 		var k knownFinding
